@@ -8,6 +8,7 @@ mod hubsched;
 mod hubwire;
 mod hubsync;
 mod bisync;
+mod oneway;
 mod c20;
 mod c19;
 mod c18;
@@ -27,6 +28,7 @@ fn main() {
         "c11" => hubwire::main_c11(args),
         "c13" => hubsync::main(args),
         "c02" => bisync::main(args),
+        "c04" => oneway::main(args),
         "c20" => c20::main(args),
         "c19" => c19::main(args),
         "c18" => c18::main(args),
